@@ -651,6 +651,24 @@ func (w *World) exec(t *core.Task, ti, oi int) {
 		ok := w.register(op.Ext, res)
 		t.OpReturn(oi)
 		res.Skipped = !ok
+	case "extend-result":
+		// Extend called on a value a detection returned (or on its Parent()): results are
+		// copies, so this registers nothing in the tree - and must disturb nothing in it
+		sl := &w.slots[op.Slot]
+		sl.mu.Lock()
+		m, set, from := sl.m, sl.set, sl.from
+		sl.mu.Unlock()
+		if set && w.Plan.Tasks[from[0]][from[1]].Kind == "lookup" {
+			set = false // a looked-up node is the live one: Extend on it is a registration, not this case
+		}
+		if set && m != nil && op.Ext != nil {
+			if op.Arr > 0 && m.Parent() != nil {
+				m = m.Parent()
+			}
+			t.OpInvoke(oi, tag)
+			m.Extend(makeDetector(op.Ext), op.Ext.Mime, op.Ext.Extension, w.aliasSlice(op.Ext, nil)...)
+			t.OpReturn(oi)
+		}
 	case "readarr":
 		a := w.Arrays[op.Arr]
 		res.Arr = append([]string(nil), a...)
